@@ -139,4 +139,78 @@ theorem addMonthsLag_frac (M : Int) (f : Rat) (hM : 0 ≤ M) (h0 : 0 < f) (h1 : 
   simp only [hfl, hfr, hne, truncInt_nonneg hnn, yearOf, monthOf]
   rfl
 
+
+theorem valid_iff (d : Date) : d.valid = true ↔ 1 ≤ d.m ∧ d.m ≤ 12 ∧ 1 ≤ d.d ∧ d.d ≤ dim d.y d.m := by
+  simp [Date.valid, and_assoc]
+
+theorem yearOf_monthToId {d : Date} (h : d.valid) : yearOf (monthToId d) = d.y := by
+  obtain ⟨h1, h2, -, -⟩ := (valid_iff d).mp h
+  unfold yearOf monthToId; omega
+
+theorem monthOf_monthToId {d : Date} (h : d.valid) : monthOf (monthToId d) = d.m := by
+  obtain ⟨h1, h2, -, -⟩ := (valid_iff d).mp h
+  unfold monthOf monthToId; omega
+
+theorem monthToId_mk (M : Int) (day : Nat) : monthToId ⟨yearOf M, monthOf M, day⟩ = M := by
+  unfold monthToId yearOf monthOf
+  simp only
+  omega
+
+theorem monthOf_range (M : Int) : 1 ≤ monthOf M ∧ monthOf M ≤ 12 := by
+  unfold monthOf; omega
+
+/-- the last day of the month with index `M` -/
+def monthEndOf (M : Int) : Date := ⟨yearOf M, monthOf M, dim (yearOf M) (monthOf M)⟩
+
+theorem monthEndOf_valid (M : Int) : (monthEndOf M).valid = true := by
+  rw [valid_iff]
+  have := monthOf_range M
+  have := dim_pos (yearOf M) (monthOf M)
+  simp only [monthEndOf]
+  omega
+
+theorem monthEndOf_isMonthEnd (M : Int) : (monthEndOf M).isMonthEnd = true := by
+  simp [monthEndOf, Date.isMonthEnd]
+
+theorem monthToId_monthEndOf (M : Int) : monthToId (monthEndOf M) = M := monthToId_mk M _
+
+theorem monthEndOf_monthToId {d : Date} (hv : d.valid) (he : d.isMonthEnd) : monthEndOf (monthToId d) = d := by
+  unfold monthEndOf
+  rw [yearOf_monthToId hv, monthOf_monthToId hv]
+  have : d.d = dim d.y d.m := by simpa [Date.isMonthEnd] using he
+  rw [← this]
+
+/-- the lag of `d + delta` from the origin, split at the month index of `d` -/
+theorem finalLag_int (d : Date) (k : Int) :
+    devLagMonths ⟨1969, 12, 31⟩ d + ((k : Int) : Rat)
+      = ((monthToId d + k : Int) : Rat) + (d.d : Rat) / (dim d.y d.m : Rat) := by
+  rw [initLag_eq]; push_cast; ring
+
+theorem finalLag_devLag (p e : Date) :
+    devLagMonths ⟨1969, 12, 31⟩ p + devLagMonths p e
+      = ((monthToId e : Int) : Rat) + (e.d : Rat) / (dim e.y e.m : Rat) := by
+  rw [initLag_eq]
+  unfold devLagMonths monthFraction monthToId
+  push_cast; ring
+
+/-- `M + d/n` with `1 ≤ d ≤ n = dim(month M)`, `M ≥ 0`, lands on day `d` of month `M` -/
+theorem addMonthsLag_own_month (M : Int) (d : Nat) (hM : 0 ≤ M) (h1 : 1 ≤ d)
+    (h2 : d ≤ dim (yearOf M) (monthOf M)) :
+    addMonthsLag ((M : Rat) + (d : Rat) / (dim (yearOf M) (monthOf M) : Rat)) = ⟨yearOf M, monthOf M, d⟩ := by
+  have hn : (0 : Rat) < (dim (yearOf M) (monthOf M) : Rat) := by exact_mod_cast dim_pos _ _
+  rcases Nat.lt_or_eq_of_le h2 with hlt | heq
+  · have hd0 : (0 : Rat) < (d : Rat) := by exact_mod_cast h1
+    have hf0 : (0 : Rat) < (d : Rat) / (dim (yearOf M) (monthOf M) : Rat) := div_pos hd0 hn
+    have hf1 : (d : Rat) / (dim (yearOf M) (monthOf M) : Rat) < 1 := by
+      rw [div_lt_one hn]; exact_mod_cast hlt
+    rw [addMonthsLag_frac M _ hM hf0 hf1]
+    have hmul : (d : Rat) / (dim (yearOf M) (monthOf M) : Rat) * (dim (yearOf M) (monthOf M) : Rat) = ((d : Int) : Rat) := by
+      field_simp; push_cast; ring
+    simp only [hmul, roundHalfEven_intCast]
+    have : ((d : Int) == 0) = false := by simp; omega
+    simp [this]
+  · have hf : (d : Rat) / (dim (yearOf M) (monthOf M) : Rat) = 1 := by
+      rw [heq]; exact div_self (ne_of_gt hn)
+    rw [hf, addMonthsLag_int M hM, heq]
+
 end Bermuda
